@@ -91,6 +91,10 @@ def call_ret(contract):
 _call_excs = {}
 
 
+def call_kwarg(contract, key, default):
+    raise KeyError('call_kwarg is a ghost of the symbolic executor')
+
+
 def call_raised(contract):
     """class name of what the last call of the stubbed callee raised (None: it returned / was not called)"""
     e = _call_excs.get(contract)
